@@ -17,6 +17,22 @@ Require Import V.Proofs.C02Quiescent.
 Require Import V.Proofs.ReaderInv.
 Require Import V.Proofs.C03Proofs.
 Require Import V.Proofs.ReaderHb.
+Require Import V.Model.ExclThreads.
+Require Import V.Model.PollThreads.
+Require Import V.Model.ClaimThreads.
+Require Import V.Oracle.C03XOracle.
+Require Import V.Proofs.RaceDisc.
+Require Import V.Proofs.RaceFree.
+Require Import V.Proofs.ExclDefs.
+Require Import V.Proofs.ExclPub1.
+Require Import V.Proofs.ExclRd2.
+Require Import V.Proofs.ExclSys.
+Require Import V.Proofs.ExclEv.
+Require Import V.Proofs.ExclRace.
+Require Import V.Proofs.ExclThm.
+Require Import V.Proofs.ExclRun.
+Require Import V.Proofs.ShCoupl.
+Require Import V.Proofs.ShRace.
 Open Scope Z_scope.
 
 (* ---- the prefix part: every interleaving of a polling subscriber with ANY number of publishers, ANY of which may be
@@ -135,6 +151,103 @@ Theorem C03_header_burst_skips_length :
 Proof. exact header_burst_skips_length. Qed.
 Print Assumptions C03_header_burst_skips_length.
 
+Theorem C03_header_burst_not_empty : (burst_lo <? burst_hi) = true.
+Proof. exact burst_nonempty. Qed.
+Print Assumptions C03_header_burst_not_empty.
+
+(* ---- soundness of the executable vector-clock race detector (Model/Sched.v: stamp / races / race_free) with respect to the
+   frame protocol.  A trace follows the frame discipline (Proofs/RaceDisc.v: disc) when every access to a watched region is
+     - the release write of a negative length word that opens a new frame, disjoint from every frame opened before,
+     - a plain write of the frame's owner inside its not yet committed frame, off the length word,
+     - the release write of the positive length word by the owner (commit),
+     - an acquire read of a length word that is not strictly inside a frame, or
+     - a plain read all of whose bytes lie in frames the reading thread has acquired committed.
+   On every such trace the detector reports no race, whatever the other threads and regions do. ---- *)
+Theorem C03_detector_sound : forall cls watch g tr, disc cls watch g tr -> race_free cls watch tr = true.
+Proof. exact disc_race_free. Qed.
+Print Assumptions C03_detector_sound.
+
+(* ---- the detector on the model of the shared publishers: on the trace of EVERY run of the C03 system (any number of shared
+   publishers, any of them stopped for ever at any access, the Image::poll subscriber, limit updates; reach3t = reach3 + the trace,
+   without driver-side zeroing and within the generations n0 .. n0+2, i.e. no partition is used twice: ShCoupl.gens_ok) the
+   executable vector-clock race detector reports no race on the bytes of the term partitions.  The proof shows that every trace
+   follows the frame discipline (ShRace.reach3t_disc: from Inv3 - claims of a generation are pairwise disjoint frames, the committed
+   prefix the subscriber has walked never ends inside a frame, a publisher only writes the frame it is inside, uncommitted), with
+   the classes of the accessors taken from the regenerated K1 table (put_ordered release, get_volatile acquire, the rest plain) ---- *)
+Theorem C03_race_free : forall c, wf_cfg c -> forall s th gh tr,
+  reach3t c s th gh tr -> race_free cls term_region (map narrow tr) = true.
+Proof. exact race_free_model. Qed.
+Print Assumptions C03_race_free.
+
+Theorem C03_run_race_free : forall c, wf_cfg c -> forall stop sched r gh,
+  rs3t_ok c r gh -> adm_sched3t c stop sched r gh ->
+  let '(s, th, g, tr) := run_sched (rtstep c) stop sched r in race_free cls term_region (map narrow (rev tr)) = true.
+Proof. exact run_sched_race_free3. Qed.
+Print Assumptions C03_run_race_free.
+
+(* ---- the exclusive publisher and BufferClaim (Model/ExclThreads.v: ExclusivePublication::offer_opt / try_claim over
+   ExclusiveTermAppender, the claimant's payload write, set_flags / set_header_type / set_reserved_value, commit, abort) against
+   a subscriber polling with ANY of the six flavours - poll, bounded_poll, controlled_poll, bounded_controlled_poll, controlled_peek
+   (+ set_position), block_poll (Model/PollThreads.v; the handler answers of the controlled flavours are arbitrary scripts) and environment threads moving the publication limit.
+   reachx quantifies over all interleavings; a crashed thread is one that is never scheduled again. Admissible steps
+   (ExclSys.admx): the publisher does not rotate into a partition that still holds an older generation and the subscriber does not
+   start a poll there (the driver has not cleaned it): the runs covered stay within the generations n0 .. n0+2. ---- *)
+Theorem C03_excl_invariant : forall c, wf_cfg c -> forall tp s th gh, reachx c tp s th gh -> XInv c tp s gh th.
+Proof. exact reachx_inv. Qed.
+Print Assumptions C03_excl_invariant.
+
+(* a frame whose length word the subscriber saw positive is a committed frame: memory holds exactly the frame the publisher's
+   item dictated at its commit (offer: header + the fragment's slice of the message; claim: header + payload + whatever the
+   setters wrote; abort: the same with type PAD), with a well-formed header - never uncommitted, torn or half-written *)
+Theorem C03_excl_never_torn : forall c, wf_cfg c -> forall tp s th gh t l,
+  reachx c tp s th gh -> th t = XV l -> von_frame (v_pc l) = true ->
+  exists sl, In (v_foff l, sl) (xg_fr gh (v_idx l)) /\ sh_mem s (v_idx l) (v_foff l) = sl /\ s_len sl = v_flen l /\ 0 < v_flen l /\
+             xwf_slot c (tid_of c (pgen c (v_idx l))) (v_foff l) sl.
+Proof. exact x_never_torn. Qed.
+Print Assumptions C03_excl_never_torn.
+
+(* the fragment handed to the handler is that committed frame - offset, payload length, flags, payload bytes - and it is a data
+   frame: an aborted claim (committed as padding whatever its claimant wrote, C03_excl_aborted_is_padding) is never delivered *)
+Theorem C03_excl_delivered_fragment : forall c, wf_cfg c -> forall tp s th gh t l s' l' e,
+  reachx c tp s th gh -> th t = XV l -> v_pc l = VBody -> vstep c t s l = Some (s', l', e) ->
+  exists sl, In (v_foff l, sl) (xg_fr gh (v_idx l)) /\ sh_mem s (v_idx l) (v_foff l) = sl /\ s_type sl <> T_PAD /\
+    v_frags l' = v_frags l ++ [(v_foff l, s_len sl - HDR, s_flags sl, pad_to (Z.to_nat (s_len sl - HDR)) (s_body sl))].
+Proof. exact x_delivered_fragment. Qed.
+Print Assumptions C03_excl_delivered_fragment.
+
+Theorem C03_excl_aborted_is_padding : forall c pl n, item_abort (x_item pl) = true -> s_type (set_len (cpre c pl) n) = T_PAD.
+Proof. exact aborted_is_padding. Qed.
+Print Assumptions C03_excl_aborted_is_padding.
+
+(* the subscriber position is a frame boundary of the committed frames of its generation (with every flavour, also after a
+   Commit / Abort answer of a controlled handler): it never passes a frame that is claimed but not committed *)
+Theorem C03_excl_position_behind_commit : forall c, wf_cfg c -> forall tp s th gh,
+  reachx c tp s th gh -> sub_ok c gh (sh_subpos s).
+Proof. exact x_position_behind_commit. Qed.
+Print Assumptions C03_excl_position_behind_commit.
+
+(* committed frames never change *)
+Theorem C03_excl_committed_never_change : forall c, wf_cfg c -> forall tp s th gh t s' x' e p o sl,
+  reachx c tp s th gh -> admx c s th t -> xtstep c t s (th t) = Some (s', x', e) ->
+  In (o, sl) (xg_fr gh p) -> In (o, sl) (xg_fr (xgstepx c (th t) gh) p) /\ sh_mem s' p o = sl.
+Proof. exact x_committed_kept. Qed.
+Print Assumptions C03_excl_committed_never_change.
+
+(* happens-before race freedom, decided by the executable detector: on the trace of EVERY run of this system (all
+   interleavings, crash points) the vector-clock detector - the very function the oracle runs on the implementation's traces,
+   with the accessor classes computed from the regenerated K1 table - reports no race on the bytes of the term partitions *)
+Theorem C03_race_free_excl : forall c, wf_cfg c -> forall tp s th gh tr,
+  reachxt c tp s th gh tr -> race_free cls term_region (map narrow tr) = true.
+Proof. exact x_race_free. Qed.
+Print Assumptions C03_race_free_excl.
+
+(* the executable run over a schedule with crash points stays inside reachxt, so its trace is race free *)
+Theorem C03_excl_run_race_free : forall c, wf_cfg c -> forall tp stop sched r gh,
+  rsx_ok c tp r gh -> adm_schedx c stop sched r gh ->
+  let '(s, th, g, tr) := run_sched (xtstep c) stop sched r in race_free cls term_region (map narrow (rev tr)) = true.
+Proof. exact run_sched_race_free. Qed.
+Print Assumptions C03_excl_run_race_free.
+
 (* ---- the hypotheses are satisfiable: a legal geometry, one publisher and one subscriber, and the decidable form of the
    property evaluated on a model run in which the subscriber polls while the publisher is inside its append ---- *)
 Example C03_example_cfg : wf_cfg (mkCfg 5 10 64 11 22 0 960).
@@ -160,3 +273,46 @@ Proof. intros c th.
         unfold th, rthreads_of in *; cbn [nth] in *; try (destruct t; discriminate); try (destruct t'; discriminate). }
   pose proof (reach3h_step c _ th ghost0 stamps0 1%nat _ _ _ R0 I I eq_refl) as R1.
   eexists. eexists. eexists. eexists. split; [exact R1|]. eexists. split; reflexivity. Qed.
+
+(* the exclusive system: the decidable form of the property (holds_C03x: delivered = committed data frames in order, aborted
+   claims are padding and never delivered, position rule, race detector) on a model run in which an exclusive publisher offers a
+   fragmented message, commits a claim with header setters and aborts a claim with an application header type, while the
+   subscriber polls with four flavours (the theorems cover all six) *)
+Example C03_example_excl_run :
+  let c := mkCfg 5 10 64 11 22 0 0 in
+  let r := run_casex c 2048
+             [xpub c 6 [XOffer (payload 1 40); XClaim (payload 2 20) [SFlags 7; SType 258; SResv (-5)] false;
+                        XClaim (payload 3 8) [SType 65535] true; XClaim (payload 4 0) [] false];
+              xv 10 [FBCtrl 3072 [Reader.Continue; Reader.Commit]; FCtrl [Reader.Abort]; FBounded 3072; FPoll]]
+             [0;0;0;0;0;0;0;1;1;1;1;1;0;0;0;0;0;0;0;0;0;0;1;1;1;1;1;1;1;1;1;1;1;1;0;0;0;0;0;0;0;0;0;0;0;0;0;0;0;0;0;0;0;0]%nat [] in
+  holds_C03x c [1] [(0, [(40, false); (20, false); (8, true); (0, false)])] r = true /\ length (snd r) = 2%nat.
+Proof. vm_compute. split; reflexivity. Qed.
+
+Example C03_example_excl_reach :
+  let c := mkCfg 5 10 64 11 22 0 960 in
+  let th := xthreads_of [xpub c 3 [XOffer (payload 1 40)]; xv 10 [FCtrl [Reader.Commit]]] in
+  exists s th' gh tr, reachxt c 0%nat s th' gh tr /\ length tr = 1%nat.
+Proof. intros c th.
+  assert (R0 : reachxt c 0%nat (init_shared c 4096) th (xg0 c) []).
+  { apply (reachxt_init c 0%nat 4096 th [XOffer (payload 1 40)] 3%nat); [reflexivity | |].
+    - intros t Hne. destruct t as [|[|t]]; [congruence | exists 10, [FCtrl [Reader.Commit]]; reflexivity|].
+      unfold th, xthreads_of. cbn [nth]. destruct t; exact I.
+    - intros t t' l l' H1 H2. destruct t as [|[|t]]; destruct t' as [|[|t']]; try reflexivity; try discriminate;
+        unfold th, xthreads_of in *; cbn [nth] in *; try (destruct t; discriminate); try (destruct t'; discriminate). }
+  pose proof (reachxt_step c 0%nat _ th _ [] 1%nat _ _ _ R0 ltac:(cbn; intros _; vm_compute; discriminate) eq_refl) as R1.
+  eexists. eexists. eexists. eexists. split; [exact R1 | reflexivity]. Qed.
+
+Example C03_example_reach_trace :
+  let c := mkCfg 5 10 64 11 22 0 960 in
+  let th := rthreads_of [rpub 3 [payload 1 40]; reader 3 10] in
+  exists s th' gh tr, reach3t c s th' gh tr /\ length tr = 1%nat.
+Proof. intros c th.
+  assert (R0 : reach3t c (init_shared c 4096) th ghost0 []).
+  { apply reach3t_init.
+    - intros t. destruct t as [|t]; [exists [payload 1 40], 3%nat; reflexivity|].
+      destruct t as [|t]; [exists 3%nat, 10; reflexivity|]. unfold th, rthreads_of. cbn [nth]. destruct t; exact I.
+    - intros t t' l l' H1 H2. destruct t as [|[|t]]; destruct t' as [|[|t']]; try reflexivity; try discriminate;
+        unfold th, rthreads_of in *; cbn [nth] in *; try (destruct t; discriminate); try (destruct t'; discriminate). }
+  assert (G0 : gens_ok c (init_shared c 4096)) by (intros p Hp; assert (p = 0 \/ p = 1 \/ p = 2) as [-> | [-> | ->]] by lia; vm_compute; discriminate).
+  pose proof (reach3t_step c _ th ghost0 [] 1%nat _ _ _ R0 I I G0 eq_refl) as R1.
+  eexists. eexists. eexists. eexists. split; [exact R1 | reflexivity]. Qed.
